@@ -561,7 +561,7 @@ def _column(draw, name, nrows, cspec):
     others = [k for k in SCALAR_TYPES if k not in want]
     if cell_kinds is want and nrows >= 2 and others and draw(st.integers(0, 3)) > 0:
         vals[draw(st.integers(1, nrows - 1))] = _scalar(draw, draw(st.sampled_from(others)))
-    if cell_kinds is want and nrows >= 2 and draw(st.sampled_from(range(4))) == 2:
+    if cell_kinds is want and nrows >= 2 and draw(st.sampled_from(range(4))) in (1, 2):
         # an "equal twin": a wrongly typed cell that is == (and hashes like) an earlier conforming cell of the column
         # (1 / 1.0 / True): whatever de-duplicates or caches by value must still look at its type
         twins = {"int": [1.0, True], "float": [1, True], "bool": [1, 1.0]}
